@@ -40,6 +40,13 @@ CFG = {
         "Swat4.C05.removal_foreign_instance_rejected",
         "Swat4.C05.instances_change_only_for_presented_id",
         "Swat4.C05.parseAddr_ok",
+        "Swat4.C05.ipv6_source_touches_no_server",
+        "Swat4.C05.ipv6_source_changes_nothing",
+        "Swat4.C05.ipv6_keepalive_rejected",
+        "Swat4.C05.ipv6_heartbeat_rejected",
+        "Swat4.C05.dispatch6_non_ipv4",
+        "Swat4.C05.dispatch6_mapped",
+        "Swat4.C05.to4_none_iff",
         "Swat4.C05.facts_ok",
     ],
     "shards": (4, 16),
@@ -52,19 +59,26 @@ CFG = {
             "After EVERY datagram the outcome and the full canonical store dump are compared with the Lean model; the oracle "
             "checks on the implementation's consecutive dumps that every server line (SV/UP/RF/ST) of an IP other than the "
             "datagram's source is unchanged, and that a keepalive/removal presenting an instance bound to another IP is "
-            "answered err with no server line changed; non-trivial = history has >= 2 distinct source IPs",
+            "answered err with no server line changed; the adversarial scripts also send the attacker's datagrams from IPv6 sources (op dg6: "
+            "2001:db8::15, fe80::1, ::1, and addresses whose low 32 bits spell the victim's IPv4 address) - the driver runs the model "
+            "function Heartbeat6.dispatch6 on the 16 source bytes and compares outcome and dump; non-trivial = history has >= 2 distinct source IPs",
     "assumptions": [
         "repository calls are atomic and storage healthy (C09); the theorem is per call, so it covers interleavings of calls of different datagrams",
         "the store invariant Rep.Inv (rows stored under their own address key, ports 1..65535) holds initially; it is proved preserved by every datagram and holds for the empty store",
-        "source addresses are IPv4 (the UDP server listens on udp4)",
+        "the source of a datagram is either an IPv4 address (a number below 2^32: Heartbeat.dispatch, theorems reporter_touches_only_source_ip .. "
+        "instances_change_only_for_presented_id) or a net.IP byte slice with To4() == nil, i.e. 16 bytes that are not IPv4-mapped "
+        "(Heartbeat6.dispatch6, theorems ipv6_*): the reporter address is resolved as udp4 but net.ListenUDP(\"udp\", wildcard) is dual-stack on Linux, "
+        "so IPv6 sources do arrive; an IPv4-mapped source (::ffff:a.b.c.d) is the IPv4 case (dispatch6_mapped, under the typing hypothesis "
+        "InstanceIpsFit: stored instance addresses are four-byte addresses)",
+        "net.IP.To4 and net.IP.Equal are modelled from the Go 1.23 standard library source (Heartbeat6.to4, ipEqual): Equal of a 4-byte and a nil slice is false",
     ],
     "trusted_base": COMMON_TRUSTED + [
         "generated Facts.lean section `reporter`",
         "miniredis as the meaning of the Redis commands; world.Dump as the canonical observation of the keyspace",
     ],
     "manifest": {
-        "text": "Lean theorem reporter_touches_only_source_ip: for every state satisfying the store invariant, every payload and source, each server row that differs before/after Heartbeat.dispatch has an address with the source IP; proved per repository call (Rep.Safe): report writes addr.New(sourceIP, hostport), renew writes inst.Addr only after the IP check, remove only (sourceIP, hostport); lifted to histories (C05_main, C05_steps, inv_reachable); keepalive/removal with a foreign instance id are rejected with the state unchanged (with a concrete two-party state satisfying all hypotheses of the removal theorem); instances_change_only_for_presented_id: the instance table changes only at the id a heartbeat-type datagram presents - which does NOT exclude that a report from A rebinds an id currently bound to B's server (documented by an example: B's record is untouched, B's next keepalive is rejected until B reports again).",
-        "level_note": "Trusted: Lean kernel; axioms propext, Quot.sound, Classical.choice; the differential run as evidence that Model/Heartbeat.lean + UseCases/Reporter.lean behave like the Go code (full dump after every datagram); generated Facts.lean.",
+        "text": "Lean theorem reporter_touches_only_source_ip: for every state satisfying the store invariant, every payload and source, each server row that differs before/after Heartbeat.dispatch has an address with the source IP; proved per repository call (Rep.Safe): report writes addr.New(sourceIP, hostport), renew writes inst.Addr only after the IP check, remove only (sourceIP, hostport); lifted to histories (C05_main, C05_steps, inv_reachable); keepalive/removal with a foreign instance id are rejected with the state unchanged (with a concrete two-party state satisfying all hypotheses of the removal theorem); instances_change_only_for_presented_id: the instance table changes only at the id a heartbeat-type datagram presents - which does NOT exclude that a report from A rebinds an id currently bound to B's server (documented by an example: B's record is untouched, B's next keepalive is rejected until B reports again). IPv6 sources: Heartbeat.dispatch takes the source as a number and cannot express a source with To4() == nil; Heartbeat6.dispatch6 takes connAddr.IP as bytes and mirrors addr.New / To4 / IP.Equal; ipv6_source_touches_no_server / ipv6_source_changes_nothing: for every state and payload a datagram from such a source leaves servers - and instances and the probe queue - exactly as they were (heartbeats and removals are stopped by addr.New before any use case runs, so not even the instance id is rebound); ipv6_keepalive_rejected: a keepalive from such a source is answered err with the state unchanged whatever instance id it presents, including when the low 32 bits of the source equal the bound server's IPv4 address (the owner check compares the stored 4 bytes with To4() == nil, and IP.Equal is false for lengths 4 and 0; witnessed on 2001:db8::1.1.1.1 and ::1.1.1.1 against a server of 1.1.1.1, with ::ffff:1.1.1.1 accepted as 1.1.1.1); dispatch6_non_ipv4: the complete behaviour (challenge/availability answered as from IPv4, everything else err without effect) - the expression the driver used to hard-code; dispatch6_mapped: on a source with an IPv4 form dispatch6 equals dispatch.",
+        "level_note": "Trusted: Lean kernel; axioms propext, Quot.sound, Classical.choice; the differential run as evidence that Model/Heartbeat.lean + Model/Heartbeat6.lean + UseCases/Reporter.lean behave like the Go code (full dump after every datagram); generated Facts.lean.",
         "technique": "Lean 4 proof (frame condition per repository call + store invariant, induction over histories) + differential correspondence with a frame oracle on the implementation's dumps",
         "design_ref": "DESIGN.md §5 C05",
     },
